@@ -289,19 +289,34 @@ CLAIMED = {
             "Digest memoisation across calls is C19's subject.",
             "§5 C01"),
     "C04": ("proof",
-            "Lean 4 theorems (KV framing round trip/soundness, per-scope losslessness and duplicate-key rejection, whole-PSBT decomposition, v0 unsigned-tx reconstruction) + correspondence",
+            "Lean 4 theorems (KV framing round trip/soundness, per-scope losslessness and duplicate-key rejection, whole-PSBT decomposition, v0 unsigned-tx reconstruction; serialise-then-parse identity on well-formed objects and well-formedness of every parse result; rejection rules; PSBTv2 transaction = BIP370 transaction) + correspondence",
             "Props/C04.lean proves for every byte string, key validator and hash function (KEEP_ALL mode, no size bound): a PSBT that "
             "parses is exactly the canonical framing of its global/input/output pairs (so truncation, missing separators and trailing "
             "bytes are refused); every pair of every scope, known or unknown, is present with identical bytes in what write_to emits; "
             "no key occurs twice in an accepted input/output scope; the global pairs incl. explicit version are kept; for version 0 "
             "the transaction rebuilt from the scopes is bit-identical to the global unsigned transaction; bad magic is refused. "
+            "Props/C04X.lean proves the other direction and the rejection rules: for every PSBT object satisfying the explicit, "
+            "decidable well-formedness predicate PsbtWF (wire size bounds, the key validity checks read_value performs, no duplicate "
+            "keys, unknown keys not colliding with typed keys, streamed-parse fields unset; for version 0 the fields that come from "
+            "the global transaction) write_to succeeds and parse(write_to(p)) = p field for field, versions 0 and 2 (ser_parse; "
+            "per scope: input_/output_scope_ser_parse, *_read_ser); every value parse returns is well-formed (parse_wf), hence "
+            "parse∘ser∘parse = parse and ser is injective on well-formed objects; standalone rejection theorems about parse: global tx "
+            "in a version-2 PSBT, missing global tx otherwise, duplicate global key (all three in every compression mode), duplicate key "
+            "in any scope, scope count different from the global transaction's (v0) or from the count fields (v2), PSBTv2 "
+            "transaction-field keys inside a version-0 scope (KEEP_ALL); and for version 2 the transaction PSBT.tx reconstructs equals, "
+            "as an Option, the transaction an independent BIP370 spec (Spec/Bip370.lean, incl. the full lock-time rule) assigns to the "
+            "RAW maps (v2_tx_eq_bip370_partial) under two explicit decidable hypotheses with decide-proved witnesses replayed on embit: "
+            "no input carries a required time/height lock time (embit implements only the fallback-lock-time case: "
+            "required_locktime_ignored) and the global tx version is present (embit substitutes 2: missing_tx_version_defaults_to_2). "
             "Each run ties the model to embit field by field (parse in 3 compression modes, re-serialisation, reconstructed tx) on "
-            "generated PSBTs over every BIP174/370/371 field type and on structural corruptions, and evaluates the property "
-            "directly on embit with an independent KV splitter and an independently built unsigned transaction. Partial: "
-            "ser∘parse identity and the v2 reconstruction against BIP370 are checked by correspondence/predicate only (listed as GOALs).",
+            "generated PSBTs over every BIP174/370/371 field type and on structural corruptions, compares embit's PSBTv2 transaction "
+            "with the BIP370 spec evaluated on the raw maps (op psbt.bip370), replays the named witnesses and one instance of each "
+            "rejection rule on embit, and evaluates the property directly on embit with an independent KV splitter and an "
+            "independently built unsigned transaction. Only corresponded, not proved: the compression modes 1/2 of parse (theorems "
+            "about scopes are KEEP_ALL), the text encodings (hex/base64). No GOAL remains.",
             "Trusted: Lean kernel + propext/Quot.sound/Classical.choice; harness (generator, independent splitter/builder); public-key "
             "validity is abstract in theorems (KeyOps) and concrete (own secp256k1) in the driver; PSBTv2 required-locktime fields are "
-            "treated as unknown keys.",
+            "treated as unknown keys by embit (excluded by hypothesis in the BIP370 theorem).",
             "§5 C04"),
     "C03": ("proof",
             "Lean 4 theorems (parser = inverse of wire encoding, all inputs) + model/implementation correspondence",
